@@ -380,49 +380,183 @@ func normPath(e ast.Expr) string {
 	return "?" + exprKey(e)
 }
 
-// spliceEffects returns (ordered pointer stores, set of bookkeeping effects, guards).
-func spliceEffects(body *ast.BlockStmt) (ptr []string, book []string) {
+// spliceNormalForm evaluates a straight-line splice body (insert/remove/move of a sentinel ring)
+// into a normal form that is stable under behaviour-preserving rewrites: temporaries are
+// substituted, a load of B.f is resolved against the earlier stores to field f (forwarded from a
+// store to the same base, skipped over stores to bases that the tabled ring invariants or a
+// guard prove distinct) and otherwise becomes an opaque load tagged with the position in the
+// store log it depends on - so hoisting a load across a store that MAY alias changes the form
+// (that is exactly what breaks MoveAfter(e, e.Prev())), while hoisting it across an unrelated
+// store does not. Result: per-field store logs, bookkeeping effects, guards.
+type spliceNF struct {
+	logs   map[string][][2]string // field -> ordered (base, value)
+	book   []string
+	guards []string
+	undec  []string
+}
+
+func (nf *spliceNF) String() string {
+	var fields []string
+	for f := range nf.logs {
+		fields = append(fields, f)
+	}
+	sort.Strings(fields)
+	var parts []string
+	for _, f := range fields {
+		var ss []string
+		for _, st := range nf.logs[f] {
+			ss = append(ss, st[0]+"."+f+"="+st[1])
+		}
+		parts = append(parts, strings.Join(ss, "; "))
+	}
+	return fmt.Sprintf("stores[%s] bookkeeping%v guards%v%s", strings.Join(parts, " | "), nf.book, nf.guards, strings.Join(nf.undec, ""))
+}
+
+func spliceNormalForm(body *ast.BlockStmt, facts [][2]string) *spliceNF {
+	nf := &spliceNF{logs: map[string][][2]string{}}
+	env := map[string]string{}
+	distinct := func(a, b string) bool {
+		if a == "nil" || b == "nil" {
+			return a != b
+		}
+		for _, f := range facts {
+			if f[0] == a && f[1] == b || f[0] == b && f[1] == a {
+				return true
+			}
+		}
+		return false
+	}
+	isPtrField := func(f string) bool { return f == "next" || f == "prev" }
+	var term func(e ast.Expr) string
+	resolve := func(b, f string) string {
+		log := nf.logs[f]
+		for i := len(log) - 1; i >= 0; i-- {
+			if log[i][0] == b {
+				return log[i][1]
+			}
+			if !distinct(log[i][0], b) {
+				return fmt.Sprintf("L(%s.%s@%d)", b, f, i+1)
+			}
+		}
+		return fmt.Sprintf("L(%s.%s@0)", b, f)
+	}
+	term = func(e ast.Expr) string {
+		switch x := ast.Unparen(e).(type) {
+		case *ast.Ident:
+			if v, ok := env[x.Name]; ok {
+				return v
+			}
+			return x.Name
+		case *ast.SelectorExpr:
+			if isPtrField(x.Sel.Name) {
+				return resolve(term(x.X), x.Sel.Name)
+			}
+			return term(x.X) + "." + x.Sel.Name
+		case *ast.CallExpr:
+			if se, ok := ast.Unparen(x.Fun).(*ast.SelectorExpr); ok && se.Sel.Name == "Load" && len(x.Args) == 0 {
+				return term(se.X)
+			}
+		case *ast.UnaryExpr:
+			if x.Op == token.AND {
+				return "&" + term(x.X)
+			}
+		}
+		return "?" + exprKey(e)
+	}
+	store := func(lhs ast.Expr, rhs ast.Expr) {
+		se, ok := ast.Unparen(lhs).(*ast.SelectorExpr)
+		if !ok {
+			if id, isId := ast.Unparen(lhs).(*ast.Ident); isId {
+				env[id.Name] = term(rhs)
+				return
+			}
+			nf.undec = append(nf.undec, " ?store "+exprKey(lhs))
+			return
+		}
+		if isPtrField(se.Sel.Name) {
+			v := term(rhs) // evaluated before the store takes effect
+			b := term(se.X)
+			nf.logs[se.Sel.Name] = append(nf.logs[se.Sel.Name], [2]string{b, v})
+			return
+		}
+		nf.book = append(nf.book, term(se.X)+"."+se.Sel.Name+" = "+term(rhs))
+	}
 	for _, st := range body.List {
 		switch x := st.(type) {
 		case *ast.AssignStmt:
-			if len(x.Lhs) == 1 && len(x.Rhs) == 1 {
-				eff := normPath(x.Lhs[0]) + " = " + normPath(x.Rhs[0])
-				if strings.HasSuffix(normPath(x.Lhs[0]), ".next") || strings.HasSuffix(normPath(x.Lhs[0]), ".prev") {
-					ptr = append(ptr, eff)
-				} else {
-					book = append(book, eff)
+			if len(x.Lhs) == len(x.Rhs) {
+				vals := make([]string, len(x.Rhs))
+				for i := range x.Rhs {
+					vals[i] = term(x.Rhs[i])
 				}
+				for i := range x.Lhs {
+					if id, isId := ast.Unparen(x.Lhs[i]).(*ast.Ident); isId {
+						env[id.Name] = vals[i]
+					} else {
+						store(x.Lhs[i], x.Rhs[i])
+					}
+				}
+			} else {
+				nf.undec = append(nf.undec, " ?assign")
+			}
+		case *ast.DeclStmt:
+			ok := false
+			if gd, isGen := x.Decl.(*ast.GenDecl); isGen && gd.Tok == token.VAR {
+				ok = true
+				for _, sp := range gd.Specs {
+					vs := sp.(*ast.ValueSpec)
+					if len(vs.Values) != len(vs.Names) {
+						ok = false
+						break
+					}
+					for i, nm := range vs.Names {
+						env[nm.Name] = term(vs.Values[i])
+					}
+				}
+			}
+			if !ok {
+				nf.undec = append(nf.undec, " ?decl")
 			}
 		case *ast.ExprStmt:
 			if c, ok := x.X.(*ast.CallExpr); ok {
 				if se, ok := ast.Unparen(c.Fun).(*ast.SelectorExpr); ok && se.Sel.Name == "Store" && len(c.Args) == 1 {
-					eff := normPath(se.X) + " = " + normPath(c.Args[0])
-					if strings.HasSuffix(normPath(se.X), ".next") || strings.HasSuffix(normPath(se.X), ".prev") {
-						ptr = append(ptr, eff)
-					} else {
-						book = append(book, eff)
-					}
+					store(se.X, c.Args[0])
 					continue
 				}
 			}
-			ptr = append(ptr, "?stmt "+exprKey(x.X))
+			nf.undec = append(nf.undec, " ?stmt "+exprKey(x.X))
 		case *ast.IncDecStmt:
-			book = append(book, normPath(x.X)+x.Tok.String())
+			nf.book = append(nf.book, term(x.X)+x.Tok.String())
 		case *ast.IfStmt:
-			if len(x.Body.List) == 1 {
-				if _, isRet := x.Body.List[0].(*ast.ReturnStmt); isRet && x.Else == nil && x.Init == nil {
-					ptr = append(ptr, "if "+exprKey(x.Cond)+" return")
+			// guard: if a == b { return }  adds the fact a != b for the rest
+			if be, ok := ast.Unparen(x.Cond).(*ast.BinaryExpr); ok && be.Op == token.EQL && len(x.Body.List) == 1 && x.Else == nil && x.Init == nil {
+				if _, isRet := x.Body.List[0].(*ast.ReturnStmt); isRet {
+					a, b := term(be.X), term(be.Y)
+					if b < a {
+						a, b = b, a
+					}
+					nf.guards = append(nf.guards, a+"=="+b+" -> return")
+					facts = append(facts, [2]string{a, b})
 					continue
 				}
 			}
-			ptr = append(ptr, "?if")
+			nf.undec = append(nf.undec, " ?if "+exprKey(x.Cond))
 		case *ast.ReturnStmt:
 		default:
-			ptr = append(ptr, fmt.Sprintf("?%T", st))
+			nf.undec = append(nf.undec, fmt.Sprintf(" ?%T", st))
 		}
 	}
-	sort.Strings(book)
-	return
+	sort.Strings(nf.book)
+	sort.Strings(nf.guards)
+	return nf
+}
+
+// ring invariants used as distinctness facts (sentinel ring: an element's neighbours are never
+// the element itself; insert is called with e not in the ring next to at)
+var spliceFacts = map[string][][2]string{
+	"insert": {{"e", "at"}},
+	"remove": {{"L(e.prev@0)", "e"}, {"L(e.next@0)", "e"}},
+	"move":   {{"L(e.prev@0)", "e"}, {"L(e.next@0)", "e"}},
 }
 
 func checkSpliceShape(r *Reporter, p *Prog) {
@@ -451,12 +585,18 @@ func checkSpliceShape(r *Reporter, p *Prog) {
 			r.Unresolved("splice/agrees-with-container-list", key, "function or reference not found")
 			continue
 		}
-		gp, gb := spliceEffects(fd.Body)
-		wp, wb := spliceEffects(rb)
-		if strings.Join(gp, "; ") == strings.Join(wp, "; ") && strings.Join(gb, "; ") == strings.Join(wb, "; ") {
-			r.Pass("splice/agrees-with-container-list", key, p.posStr(fd.Pos()), fmt.Sprintf("%d pointer stores in the reference order, bookkeeping %v", len(gp), gb))
-		} else {
-			r.Fail("splice/agrees-with-container-list", key, p.posStr(fd.Pos()), fmt.Sprintf("effect sequence differs from container/list.%s: got [%s | %s], reference [%s | %s]", name, strings.Join(gp, "; "), strings.Join(gb, "; "), strings.Join(wp, "; "), strings.Join(wb, "; ")))
+		got, want := spliceNormalForm(fd.Body, spliceFacts[name]), spliceNormalForm(rb, spliceFacts[name])
+		switch {
+		case len(got.undec) > 0:
+			r.Fail("splice/agrees-with-container-list", key, p.posStr(fd.Pos()), "the splice body contains a construct the normal form does not cover (undecided counts as failed): "+got.String())
+		case got.String() == want.String():
+			n := 0
+			for _, l := range got.logs {
+				n += len(l)
+			}
+			r.Pass("splice/agrees-with-container-list", key, p.posStr(fd.Pos()), fmt.Sprintf("%d pointer stores; normal form equals container/list.%s: %s", n, name, got.String()))
+		default:
+			r.Fail("splice/agrees-with-container-list", key, p.posStr(fd.Pos()), fmt.Sprintf("the pointer updates differ from container/list.%s for some ring shape (a load moved across a store that may alias it, a store dropped or redirected): got %s, reference %s", name, got.String(), want.String()))
 		}
 	}
 }
